@@ -13,7 +13,7 @@ from engine.runner import jnum, unj, active_regions
 ID = 'C18'
 ENGINE = 'PYSYM + IRSYM'
 TECHNIQUE = 'symbolic execution of dtw.warping_paths_affinity and of the C affinity kernels / expansion (LLVM IR) with exp as an uninterpreted monotone function and symbolic tau, delta, penalty; every in-band cell is compared by z3 with the documented recurrence and across engines; LocalConcurrences matches are checked per execution path'
-BUDGET = {'quick': 420, 'thorough': 3000}
+BUDGET = {'quick': 420, 'thorough': 1800}
 SOURCES = ['src/dtaidistance/dtw.py', 'src/dtaidistance/subsequence/localconcurrences.py', 'src/DTAIDistanceC/DTAIDistanceC/dd_dtw.c']
 FUNCTIONS = ['dtw.warping_paths_affinity', 'dd_dtw.c dtw_warping_paths_affinity(_ndim), dtw_expand_wps_affinity, dtw_expand_wps_slice_affinity',
              'LocalConcurrences.align / kbest_matches / best_path (Python, masked arrays)']
